@@ -8,7 +8,12 @@
         for (var X = exception_catch(tuple(__VA_ARGS__)); X isnt NULL; X = NULL)
     #define throw(E, F, ...) exception_throw(E, F, tuple(__VA_ARGS__))
     exception_try / exception_try_fail / exception_try_end / exception_throw / exception_catch
-    and, for the filter walk of exception_catch (`foreach(arg in args)` over a Tuple), Tuple_Iter_Init / Tuple_Iter_Next.
+    and the filter walk of exception_catch: by index since fix a0ef2da
+      `size_t nargs = len(args); for (size_t i = 0; i < nargs; i++) { if (eq(get(args, $I(i)), e->obj)) {…`
+    (`catchDecision`, machine `run`).  The walk of the code before that fix — `foreach(arg in args)` over the Tuple, i.e.
+    Tuple_Iter_Init / Tuple_Iter_Next — is kept as an explicit OLD variant (`catchDecisionOld`, machine `runOld`): it is
+    what the theorems `C07_foreach_walk_…` of CelloProofs/Props/C07.lean are about, and what the driver runs when the
+    translator finds the `foreach` loop in the source again (`runCfg`).
 
   Objects are addresses (`Nat`); address 0 is NULL.  The exception objects of the harness (kind k of harness/h_exn.c)
   are the addresses k+1; `eq` on them is identity (they are Type objects with distinct names).
@@ -93,7 +98,8 @@ def inDomain : Prog → Bool
   | .call p => inDomain p
   | .tryCatch b f h => inDomain b && !f.contains 0 && inDomain h
 
-/-- every catch filter lists pairwise distinct objects -/
+/-- every catch filter lists pairwise distinct objects. No hypothesis of the theorems about the current machine any
+    more (fix a0ef2da); it is the hypothesis under which the OLD foreach walk (`runOld`) behaved by the reference. -/
 def nodupFilters : Prog → Bool
   | .seq p q => nodupFilters p && nodupFilters q
   | .call p => nodupFilters p
@@ -123,10 +129,36 @@ inductive Sig where
   | fatal                -- uncaught: Exception_Error → diagnostic, exit(EXIT_FAILURE)
   | abort                -- "Exception Buffer Overflow/Underflow" → abort()
   | ub                   -- longjmp to a buffer whose block has been left: undefined behaviour
-  | hang                 -- the filter walk of exception_catch never terminates
+  | hang                 -- the filter walk of exception_catch never terminates (OLD variant `runOld` only:
+                         -- `run` never ends this way, `C07_no_undefined_jump`)
 deriving Repr, DecidableEq, Inhabited
 
-/-! ### the filter walk: `foreach(arg in args) { if (eq(arg, e->obj)) … }` over `tuple(__VA_ARGS__)` -/
+/-! ### the filter walk of `exception_catch` -/
+
+inductive Walk where
+  | matched   -- `eq(arg, e->obj)` held for some visited `arg`
+  | exhausted -- every item was visited, none matched
+  | hang      -- (OLD foreach walk only) out of fuel: the walk cycles (`CelloProofs.Lemmas.ExnWalk`: for every fuel)
+  | nullCmp   -- `eq(arg, NULL)`: `Type_Cmp` casts its argument, `type_of(NULL)` raises ValueError
+deriving Repr, DecidableEq, Inhabited
+
+/-- **current code** — `size_t nargs = len(args); for (size_t i = 0; i < nargs; i++) { if (eq(get(args, $I(i)), e->obj)) … }`:
+    the argument is the items `items[i], …, items[nargs-1]` still to be visited (`get(args, $I(i))` is `Tuple_Get`, which
+    returns `items[i]`; `i < nargs = Tuple_Len(args)`, so its bound check passes). A `for` over a range: structural
+    recursion, no fuel — the loop ends after `nargs` iterations whatever the items are. -/
+def walkIdx (obj : Nat) : List Nat → Walk
+  | [] => .exhausted
+  | a :: rest =>
+    if obj = 0 then .nullCmp
+    else if a = obj then .matched
+    else walkIdx obj rest
+
+/-- **current code** — `exception_catch` after the `active` test: `len(args) is 0` → catch all; otherwise the walk by
+    index. -/
+def catchDecision (f : List Nat) (obj : Nat) : Walk :=
+  if f.isEmpty then .matched else walkIdx obj f
+
+/-! #### OLD variant (before fix a0ef2da): `foreach(arg in args) { if (eq(arg, e->obj)) … }` over `tuple(__VA_ARGS__)` -/
 
 /-- `Tuple_Iter_Next(self, curr)`: scan from the start for the first item that *is* `curr` (pointer identity) and
     return the item after it; `none` is `Terminal`. -/
@@ -134,14 +166,7 @@ def tupleNext : List Nat → Nat → Option Nat
   | [], _ => none
   | x :: xs, c => if x = c then xs.head? else tupleNext xs c
 
-inductive Walk where
-  | matched   -- `eq(arg, e->obj)` held for some visited `arg`
-  | exhausted   -- the walk reached Terminal
-  | hang      -- out of fuel: the walk cycles (see `CelloProofs.Lemmas.ExnWalk`: then it does so for every fuel)
-  | nullCmp   -- `eq(arg, NULL)`: `Type_Cmp` casts its argument, `type_of(NULL)` raises ValueError
-deriving Repr, DecidableEq, Inhabited
-
-/-- the loop `for (arg = iter_init(args); arg isnt Terminal; arg = iter_next(args, arg))`, `cur` = `arg` -/
+/-- OLD: the loop `for (arg = iter_init(args); arg isnt Terminal; arg = iter_next(args, arg))`, `cur` = `arg` -/
 def walkFrom (f : List Nat) (obj : Nat) : Nat → Option Nat → Walk
   | 0, _ => .hang
   | _+1, none => .exhausted
@@ -150,22 +175,23 @@ def walkFrom (f : List Nat) (obj : Nat) : Nat → Option Nat → Walk
     else if a = obj then .matched
     else walkFrom f obj n (tupleNext f a)
 
-/-- `exception_catch` after the `active` test: `len(args) is 0` → catch all; otherwise the walk (`Tuple_Iter_Init` =
-    first item). Fuel `length + 1` is exactly what a duplicate-free tuple needs. -/
-def catchDecision (f : List Nat) (obj : Nat) : Walk :=
+/-- OLD: `len(args) is 0` → catch all; otherwise the foreach walk (`Tuple_Iter_Init` = first item). Fuel `length + 1`
+    is exactly what a duplicate-free tuple needs. -/
+def catchDecisionOld (f : List Nat) (obj : Nat) : Walk :=
   if f.isEmpty then .matched else walkFrom f obj (f.length + 1) f.head?
 
 /-- `exception_try_end(); exception_catch(filter)` and the handler, given the state after the body/else-branch.
-    `consume` = whether `exception_catch` clears `active` when it returns the object (read from the source by
-    the translator: CelloGen.Exn.catchConsumes). `runH x` runs the handler with `x` bound. -/
-def catchPhase (consume : Bool) (runH : Nat → St → St × List Ev × Sig) (f : List Nat)
+    `dec` = the filter walk (`catchDecision` now, `catchDecisionOld` before fix a0ef2da); `consume` = whether
+    `exception_catch` clears `active` when it returns the object (read from the source by the translator:
+    CelloGen.Exn.catchConsumes). `runH x` runs the handler with `x` bound. -/
+def catchPhase (dec : List Nat → Nat → Walk) (consume : Bool) (runH : Nat → St → St × List Ev × Sig) (f : List Nat)
     (s3 : St) (t : List Ev) : St × List Ev × Sig :=
   -- exception_try_end
   if s3.depth = 0 then (s3, t, .abort) else
   let s4 : St := { s3 with depth := s3.depth - 1 }
   -- exception_catch
   if !s4.active then (s4, t, .normal)
-  else match catchDecision f s4.obj with
+  else match dec f s4.obj with
     | .matched =>
       let s5 : St := if consume then { s4 with active := false } else s4
       -- `for (var X = exception_catch(…); X isnt NULL; X = NULL)`: a NULL object is returned, the handler is skipped
@@ -185,8 +211,9 @@ def throwObj (e : Nat) (s : St) : St × List Ev × Sig :=
   let s := { s with obj := e }
   if s.depth ≥ 1 then (s, [], .jump (s.depth - 1)) else (s, [], .fatal)
 
-/-- The machine: what the macros and Exception.c do. `x` = the C variable bound by the innermost enclosing handler. -/
-def run (consume : Bool) (maxDepth : Nat) : Prog → Nat → St → St × List Ev × Sig
+/-- The machine: what the macros and Exception.c do, for a given filter walk `dec`. `x` = the C variable bound by the
+    innermost enclosing handler. -/
+def runWith (dec : List Nat → Nat → Walk) (consume : Bool) (maxDepth : Nat) : Prog → Nat → St → St × List Ev × Sig
   | .stmt t, _, s => (s, [.stmt t], .normal)
   | .throw e, _, s => throwObj e s
   | .throwBad e, _, s =>
@@ -195,35 +222,48 @@ def run (consume : Bool) (maxDepth : Nat) : Prog → Nat → St → St × List E
     throwObj fmtErr { s with obj := e }
   | .rethrow, x, s => throwObj x s
   | .seq p q, x, s =>
-    match run consume maxDepth p x s with
+    match runWith dec consume maxDepth p x s with
     | (s1, t1, .normal) =>
-      let (s2, t2, g) := run consume maxDepth q x s1
+      let (s2, t2, g) := runWith dec consume maxDepth q x s1
       (s2, t1 ++ t2, g)
     | r => r
-  | .call p, x, s => run consume maxDepth p x s
+  | .call p, x, s => runWith dec consume maxDepth p x s
   | .tryCatch b f h, x, s =>
     -- exception_try: overflow check, depth++, active = false, buffers[depth-1] = env  (index = s.depth)
     if s.depth = maxDepth then (s, [], .abort) else
     let s1 : St := { s with depth := s.depth + 1, active := false }
-    match run consume maxDepth b x s1 with
-    | (s2, t, .normal) => catchPhase consume (run consume maxDepth h) f s2 t
+    match runWith dec consume maxDepth b x s1 with
+    | (s2, t, .normal) => catchPhase dec consume (runWith dec consume maxDepth h) f s2 t
     | (s2, t, .jump tgt) =>
       if tgt = s.depth then
         -- lands in this block's else-branch: exception_try_fail
-        catchPhase consume (run consume maxDepth h) f { s2 with active := true } t
+        catchPhase dec consume (runWith dec consume maxDepth h) f { s2 with active := true } t
       else if tgt < s.depth then (s2, t, .jump tgt)   -- an outer block's buffer: this block's end code is skipped
       else (s2, t, .ub)                               -- a buffer of a block already left
     | r => r
 
+/-- **The machine of the code as it is now**: filter walk by index. -/
+def run (consume : Bool) (maxDepth : Nat) : Prog → Nat → St → St × List Ev × Sig :=
+  runWith catchDecision consume maxDepth
+
+/-- the machine of the code before fix a0ef2da: filter walk with `foreach` -/
+def runOld (consume : Bool) (maxDepth : Nat) : Prog → Nat → St → St × List Ev × Sig :=
+  runWith catchDecisionOld consume maxDepth
+
+/-- the machine selected by what the translator reads from the source (`foreachWalk` =
+    CelloGen.Exn.catchWalksFilterWithForeachEq, `consume` = CelloGen.Exn.catchConsumes, `maxDepth` = CelloGen.Exn.maxDepth) -/
+def runCfg (foreachWalk consume : Bool) (maxDepth : Nat) : Prog → Nat → St → St × List Ev × Sig :=
+  runWith (if foreachWalk then catchDecisionOld else catchDecision) consume maxDepth
+
 def St.init : St := ⟨0, false, 0⟩
 
-/-- statements executed one after another (a history of constructs), as `seq` does it -/
-def runSeq (consume : Bool) (maxDepth : Nat) : List Prog → Nat → St → St × List Ev × Sig
+/-- statements executed one after another (a history of constructs) on the machine `M`, as `seq` does it -/
+def runSeq (M : Prog → Nat → St → St × List Ev × Sig) : List Prog → Nat → St → St × List Ev × Sig
   | [], _, s => (s, [], .normal)
   | p :: ps, x, s =>
-    match run consume maxDepth p x s with
+    match M p x s with
     | (s1, t1, .normal) =>
-      let (s2, t2, g) := runSeq consume maxDepth ps x s1
+      let (s2, t2, g) := runSeq M ps x s1
       (s2, t1 ++ t2, g)
     | r => r
 
